@@ -103,7 +103,7 @@ def expr_text(rng: random.Random, depth: int = 0) -> str:
     if op in '*/' and any(c in left for c in '+-') and not left.startswith('('):
         left = '(' + left + ')'
     if op == '/':
-        right = rng.choice(['2', '4', '5', '(1 + 1)', '0.5'])
+        right = rng.choice(['2', '4', '5', '(1 + 1)', '0.5', '3', '7', '3'])
     return f'{left}{sp}{op}{sp}{right}'
 
 
